@@ -673,3 +673,8 @@ def run(ck):
     ck.attempt(rule_acndata)
     ck.attempt(rule_stochastic)
     ck.attempt(rule_fit)
+    # "yields arrival and departure equal to ...": the session object built from these values stores each under its own name (constructor
+    # rule of C09, for the EV and its batteries)
+    from .c09 import rule_constructors
+    ck.attempt(rule_constructors, rid="C15.R9", classes=("EV", "Battery", "Linear2StageBattery"), floor=8)
+
